@@ -18,7 +18,7 @@ fn main() {
 
 fn gen(a: &Args) {
     let mut rng = Rng::new(a.seed);
-    let mut w = CaseWriter::new(&a.out, "C29", "Corr.C28 Corr.C29", 4);
+    let mut w = CaseWriter::new(&a.out, "C29", "Corr.C28 Corr.C29", if a.thorough() { 4 } else { 3 });
     let mut pages = 0u64;
     let mut steps = 0u64;
     let mut emit = |w: &mut CaseWriter, ran: Ran| {
@@ -36,7 +36,7 @@ fn gen(a: &Args) {
             }
         }
     } else {
-        let (per_clean, per_directed, budget) = if a.thorough() { (40, 12, 300) } else { (7, 3, 150) };
+        let (per_clean, per_directed, budget) = if a.thorough() { (40, 12, 300) } else { (4, 2, 120) };
         for kind in KINDS {
             let per_kind = if DIRECTED.contains(&kind) { per_directed } else { per_clean };
             for _ in 0..per_kind {
